@@ -220,7 +220,10 @@ def run_kalman(shard, ctx):
     trans = conditional.ConditionalGaussianPDF(M=J(A[None]), b=J(bz[None]), Sigma=J(Q[None]))
     emis = conditional.ConditionalGaussianPDF(M=J(C[None]), b=J(d[None]), Sigma=J(Rn[None]))
     filt = objs.mk_pdf("GaussianPDF", S0, m0)
+    filt_pair = objs.mk_pdf("GaussianPDF", S0, m0)
+    emis_pair = conditional.ConditionalGaussianPDF(M=J(np.concatenate([np.zeros((Dx, Dz)), C], axis=1)[None]), b=J(d[None]), Sigma=J(Rn[None]))
     ev = np.zeros(Rp)
+    ev_pair = np.zeros(Rp)
     ctx.count("states")
     for t in range(1, T + 1):
         if not ctx.case(dict(t=t)):
@@ -233,6 +236,13 @@ def run_kalman(shard, ctx):
             filt = emis.affine_conditional_transformation(pred).condition_on_x(J(xs[t - 1][None]))
         if not g.ok:
             return
+        # the same step through the pairwise joint p(z_{t-1}, z_t | x_{1:t-1}) used as a prior of the observation model
+        with ctx.guard("kalman.pair_step", facts) as g2:
+            pair = trans.affine_joint_transformation(filt_pair)  # over (z_{t-1}, z_t)
+            py2 = emis_pair.affine_marginal_transformation(pair)
+            ev_pair = ev_pair + np.asarray(py2.evaluate_ln(J(xs[t - 1][None])))[:, 0]
+            post_pair = emis_pair.affine_conditional_transformation(pair).condition_on_x(J(xs[t - 1][None]))
+            filt_pair = post_pair.get_marginal(jnp.arange(Dz, 2 * Dz))
         ctx.count("states")
         ctx.count("transitions")
         ctx.count("traces_validated_against_impl")
@@ -267,6 +277,10 @@ def run_kalman(shard, ctx):
             ctx.close("kalman.mu", np.asarray(filt.mu)[r], mpost[last], facts=f2, tol=1e-8)
             ctx.close("kalman.Sigma", np.asarray(filt.Sigma)[r], Sp[last, last], facts=f2)
             ctx.close("kalman.evidence", np.array([ev[r]]), np.array([evref]), facts=f2)
+            if g2.ok:
+                ctx.close("kalman.pair.mu", np.asarray(filt_pair.mu)[r], mpost[last], facts=f2, tol=1e-8)
+                ctx.close("kalman.pair.Sigma", np.asarray(filt_pair.Sigma)[r], Sp[last, last], facts=f2)
+                ctx.close("kalman.pair.evidence", np.array([ev_pair[r]]), np.array([evref]), facts=f2)
     if vi == 0:
         ctx.sample(dict(shard=shard["id"], A=A, b=bz, Q=Q, C=C, d=d, R=Rn, T=T, x=xs))
 
